@@ -119,6 +119,18 @@ def build(ctx, crate, E):
            "registration order")
 
 
+def root_local_is(fa, op, local):
+    pl = op_place(op)
+    for _ in range(4):
+        if pl is None or pl["p"]:
+            return False
+        if pl["l"] == local:
+            return True
+        d = fa.single_def(pl["l"])
+        pl = op_place(d[3]["op"]) if d and d[2] == "assign" and d[3]["k"] == "use" else None
+    return False
+
+
 def scan(ctx, crate, E):
     p = _fn(crate, P_REW)
     fa = E.fa(p)
@@ -132,11 +144,64 @@ def scan(ctx, crate, E):
         txt = show(S.operand(t["args"][0]))
         if "actions" in txt and "next" not in chain and "as Rewrite" not in txt:
             loops.append((b, t, chain))
+    counted = None
+    if not loops:
+        # `let mut i = edge_idx; while let Some(action) = actions.get(i) { ..; i += 1 }`
+        for b, t in fa.calls():
+            if "get" not in _names(t) or len(t["args"]) != 2 or "actions" not in show(S.operand(t["args"][0])):
+                continue
+            sw0 = fa.term(b).get("t")
+            if sw0 is None or fa.term(sw0)["k"] != "switch":
+                continue
+            ipl = op_place(t["args"][1])
+            il = None
+            for _ in range(4):
+                if ipl is None or ipl["p"]:
+                    break
+                if len([d for d in fa.defs().get(ipl["l"], []) if d[2] != "partial"]) > 1:
+                    il = ipl["l"]
+                    break
+                d0 = fa.single_def(ipl["l"])
+                ipl = op_place(d0[3]["op"]) if d0 and d0[2] == "assign" and d0[3]["k"] == "use" else None
+            if il is None:
+                continue
+            incs, other = [], []
+            for (db, di, dk, dp) in fa.defs().get(il, []):
+                if dk != "assign" or dp["k"] != "use":
+                    other.append(db)
+                    continue
+                pl2 = op_place(dp["op"])
+                dd = fa.single_def(pl2["l"]) if pl2 is not None and pl2["p"] else None
+                if dd and dd[2] == "assign" and dd[3]["k"] == "binop" and dd[3]["op"].startswith("Add") and \
+                        (op_const(dd[3]["b"]) or {}).get("int") == 1 and op_place(dd[3]["a"]) and \
+                        root_local_is(fa, dd[3]["a"], il):
+                    incs.append(db)
+                else:
+                    other.append(db)
+            loops.append((b, t, ["get"]))
+            counted = (il, incs, other)
     if len(loops) != 1:
         raise EngineError("FIRSTMATCH-SCAN: the action loop of rewrite() was not recognised (%d candidates)" % len(loops))
     nb, nt, chain = loops[0]
     allowed = {"iter", "enumerate", "skip", "into_iter", "deref", "index", "by_ref", "as_slice"}
     extra = [c for c in chain if c not in allowed]
+    if counted is not None:
+        il, incs, other = counted
+        sw1 = fa.term(nb).get("t")
+        st1 = fa.term(sw1)
+        some1 = [tg for v, tg in zip(st1["vals"], st1["targets"]) if v == 1][0]
+        # every way round the loop passes the `+= 1`; no other write to the index inside the loop
+        outer1 = None
+        for d1 in fa.dominators().get(nb, ()):
+            if d1 != nb and d1 in fa.reachable(nb) and nb in fa.reachable(d1):
+                if outer1 is None or fa.dominates(d1, outer1):
+                    outer1 = d1
+        av = {nb} | ({outer1} if outer1 is not None else set())
+        inner = {x for x in fa.reachable(some1, avoid=av)
+                 if nb in fa.reachable(x, avoid=({outer1} if outer1 is not None else set()))}
+        round_ok = bool(incs) and nb not in fa.reachable(some1, avoid=set(incs) | {b0 for b0 in fa.live_blocks()
+                                                                                 if b0 not in inner and b0 != nb})
+        extra = [] if round_ok and not (set(other) & inner) else ["index not advanced by exactly 1 per action"]
     ctx.ob("FIRSTMATCH-SCAN", "%s|ascending-scan" % P_REW, not extra, fa.loc(nb),
            "rewrite() walks a node's actions front to back (%s)" % " <- ".join(chain) if not extra else
            "rewrite() does not walk the actions in the order they were added (%s in the iterator "
